@@ -121,6 +121,18 @@ EventOK(e) ==
       [] e.ev = "repr" -> (e.short = FitsShort(N(e.a)))                      \* canonical Short/Long form
       [] e.ev = "same" -> \* two routes to the same number: indistinguishable
             Eq(N(e.a), N(e.b)) /\ e.eq /\ e.samehash /\ e.sametext
+      \* fractions n/d: results checked by cross-multiplication, normal form by sign and gcd
+      [] e.ev = "fnew" -> Eq(Mul(N(e.rn), N(e.d)), Mul(N(e.n), N(e.rd)))                    \* rn/rd = n/d
+      [] e.ev = "fadd" -> Eq(Mul(N(e.rn), Mul(N(e.d1), N(e.d2))),
+                            Mul(Add(Mul(N(e.n1), N(e.d2)), Mul(N(e.n2), N(e.d1))), N(e.rd)))
+      [] e.ev = "fsub" -> Eq(Mul(N(e.rn), Mul(N(e.d1), N(e.d2))),
+                            Mul(Sub(Mul(N(e.n1), N(e.d2)), Mul(N(e.n2), N(e.d1))), N(e.rd)))
+      [] e.ev = "fmul" -> Eq(Mul(N(e.rn), Mul(N(e.d1), N(e.d2))), Mul(Mul(N(e.n1), N(e.n2)), N(e.rd)))
+      [] e.ev = "fdiv" -> Eq(Mul(N(e.rn), Mul(N(e.d1), N(e.n2))), Mul(Mul(N(e.n1), N(e.d2)), N(e.rd)))
+      [] e.ev = "fnorm" -> \* lowest terms with a positive denominator (gcd by the interpreter, itself checked by C14)
+            ~N(e.rd).neg /\ ~IsZero(N(e.rd)) /\ e.gcd1
+      [] e.ev = "fcmp" -> \* sign of n1*d2 - n2*d1 (denominators positive)
+            e.r = Cmp(Mul(N(e.n1), N(e.d2)), Mul(N(e.n2), N(e.d1)))
       [] OTHER -> FALSE
 
 Init == l = 1
